@@ -66,7 +66,8 @@ def to_record(case, result):
     rec = {"T": T, "K": K, "cost": case["cost"], "beta": bv, "slack": 0,
            "bf": (K ** T) <= 1024, "labels": result["labels"],
            "reported": int(result["reported_scaled"]) if result["reported_exact"] else 0,
-           "exact": bool(result["reported_exact"] and result["labels_integral"])}
+           "exact": bool(result["reported_exact"] and result["labels_integral"]),
+           "args_same": bool(result["args_unchanged"])}
     return rec
 
 
